@@ -786,3 +786,15 @@ CASES.append({'name': 'ben39r5-back-edges-skip-first', 'props': ['C18'], 'expect
               'edits': [('oxmpl/src/geometric/planners/prm.rs', '        for &i in &neighbours {\n            roadmap[i].edges.push(new_node_idx);', '        for &i in neighbours.iter().skip(1) {\n            roadmap[i].edges.push(new_node_idx);')]})
 for _n in ('ben40-r1', 'ben40-r2', 'ben40-r3', 'ben40-r5'):
     benign_patch(_n, ALL)                                       # RRT + shared code: planners/motion.rs is_motion_valid, Nearest fold + steer, let-else / all() / successors, loop-as-value + sample_target + tree_size() (r4 not followed: unsupported)
+
+# ---------------------------------------------------------------- round 16
+seeded('seeded-RGC01-roots-stored-after-enforce-bounds', ['C01', 'C02'], ['C01.root'])
+seeded('seeded-RGC03-lerp-closure-fed-the-raw-end-point', ['C03', 'C10'], ['C10.repr'])
+seeded('seeded-RGC04-step-floored-branch-not', ['C04', 'C05'], ['C05.steer'])
+seeded('seeded-RGC07-trees-take-turns-from-a-local-flag', ['C07', 'C16'], ['C16.balance'])
+seeded('seeded-RGC08-neighbour-cap-off-by-one', ['C08', 'C17'], ['C17.choose'])
+seeded('seeded-RGC09-hemisphere-by-own-w-sign', ['C09'], ['C09.range'])
+seeded('seeded-RGC10-normalise-tolerance-plus-lerp', ['C10', 'C12'], ['C12.unit'])
+seeded('seeded-RGC13-se2-fast-path-half-turn', ['C13'], ['C13.match'])
+seeded('seeded-RGC14-attempt-budget-with-boundary-fallback', ['C14', 'C11'], ['C14.so3'])
+seeded('seeded-RGC15-raw-difference-single-correction', ['C15', 'C10'], ['C10.arc'])
